@@ -11,6 +11,7 @@ import (
 	stdx509 "crypto/x509"
 	"crypto/x509/pkix"
 	"encoding/asn1"
+	"encoding/pem"
 	"fmt"
 	"math/big"
 	"time"
@@ -1158,9 +1159,6 @@ func (c *checker) sctListInput(_ *checker, vid string, m mut) {
 		}
 		return ""
 	})
-	if rerr != nil {
-		return
-	}
 	// every element must in turn be a complete SCT
 	var wantSCTs []ref.SCT
 	var serr error
@@ -1174,6 +1172,39 @@ func (c *checker) sctListInput(_ *checker, vid string, m mut) {
 		l.SCTList = append(l.SCTList, ctx509.SerializedSCT{Val: e})
 	}
 	var got []*ct.SignedCertificateTimestamp
+	cmp := func() string {
+		if len(got) != len(wantSCTs) {
+			return fmt.Sprintf("%d SCTs, want %d", len(got), len(wantSCTs))
+		}
+		for i := range got {
+			g, prob := refSCT(got[i])
+			if prob != "" || !g.Equal(wantSCTs[i]) {
+				return fmt.Sprintf("SCT %d = %s %s, want %s", i, showSCT(g), prob, showSCT(wantSCTs[i]))
+			}
+		}
+		return ""
+	}
+	// the one-call route from certificate bytes (DER and PEM) to SCTs: an error unless the extension
+	// holds exactly one complete list of complete SCTs
+	both := rerr
+	if both == nil {
+		both = serr
+	}
+	for _, enc := range []string{"DER", "PEM"} {
+		in := der
+		if enc == "PEM" {
+			in = pem.EncodeToMemory(&pem.Block{Type: "CERTIFICATE", Bytes: der})
+		}
+		c.strict("x509util.ParseSCTsFromCertificate("+enc+")", st, vid, m, both, func() error {
+			var err error
+			got, err = x509util.ParseSCTsFromCertificate(in)
+			return err
+		}, cmp)
+	}
+	got = nil
+	if rerr != nil {
+		return
+	}
 	c.strict("x509util.ParseSCTsFromSCTList", st, vid, m, serr, func() error {
 		var err error
 		got, err = x509util.ParseSCTsFromSCTList(&l)
